@@ -50,6 +50,8 @@ type Profile struct {
 	PFront float64
 	// PHostile: probability that a request is a hostile one (malformed, out of range, forged cursor ...)
 	PHostile float64
+	// PForged: share of searches that present a cursor with valid content and a signature that does not verify
+	PForged float64
 	// HostileData: ids, tags and timeouts are drawn from the hostile-but-legal pools
 	HostileData bool
 	// Prologue: "" or "tasks" (routed promises, registrations and a few settled
@@ -423,6 +425,10 @@ func (g *Gen) reqSpec() *ReqSpec {
 	case "CompleteTask":
 		return &ReqSpec{Kind: kind, Id: pick(g.R, g.taskIds()), CounterFrom: "snap", Counter: pick(g.R, []int{0, 0, 0, 0, -1, 1})}
 	case "SearchPromises":
+		if g.P.PForged > 0 && g.R.Float64() < g.P.PForged {
+			g.S.Probes["forged_cursor_with_valid_content"]++
+			return &ReqSpec{Kind: kind, RawCursor: g.forgedValidCursor(kind), Forged: true, Proto: pick(g.R, []string{"http", "grpc"})}
+		}
 		// follow a cursor some client holds (most of the time), else start a new search
 		if len(g.cursorClients(kind)) > 0 && g.R.Intn(4) != 0 {
 			return &ReqSpec{Kind: kind, Cursor: true}
@@ -460,6 +466,10 @@ func (g *Gen) reqSpec() *ReqSpec {
 		}
 		return sp
 	case "SearchSchedules":
+		if g.P.PForged > 0 && g.R.Float64() < g.P.PForged {
+			g.S.Probes["forged_cursor_with_valid_content"]++
+			return &ReqSpec{Kind: kind, RawCursor: g.forgedValidCursor(kind), Forged: true, Proto: pick(g.R, []string{"http", "grpc"})}
+		}
 		if len(g.cursorClients(kind)) > 0 && g.R.Intn(4) != 0 {
 			return &ReqSpec{Kind: kind, Cursor: true}
 		}
@@ -587,6 +597,13 @@ func (g *Gen) decorate(sp *ReqSpec) {
 		// deadlines at the ends of the int64 range (clock arithmetic must not wrap)
 		v := pick(r, []int64{math.MinInt64, math.MinInt64 + 1_000_000, math.MinInt64 + 1<<41, -1, 0, 1, math.MaxInt64, math.MaxInt64 - 1_000_000})
 		sp.TimeoutAbs = &v
+	}
+	if g.P.PExtremeTimeout > 0 && sp.Kind == "CompletePromise" && r.Float64() < g.P.PExtremeTimeout {
+		// a client asks over HTTP for the one state only the server may give: the front end must refuse it
+		// (through the kernel queue directly the request would bypass the validation that is under test)
+		sp.State, sp.Proto = "REJECTED_TIMEDOUT", "http"
+		g.S.Probes["complete_with_timedout_state"]++
+		return
 	}
 	if g.P.HostileData {
 		switch sp.Kind {
@@ -840,6 +857,10 @@ func (g *Gen) Next() Step {
 			g.nReq++
 			g.decorate(sp)
 			sp.Proto, sp.Synth = "", nil
+			if sp.State == "REJECTED_TIMEDOUT" {
+				// only a front end can refuse that state; straight into the kernel queue it would bypass the API
+				sp.State = "RESOLVED"
+			}
 			// drive it alone: first everything queued finishes, then read (store, router), then the write with its completion lost
 			g.queue = append(g.queue, Step{Op: "req", Client: r.Intn(3), Req: sp}, Step{Op: "tick"},
 				Step{Op: "work", Sub: "store"}, Step{Op: "deliver", Sub: "store"}, Step{Op: "tick"},
